@@ -8,6 +8,8 @@ trip for one feature set.
 * `tokens`   : token lists (element, attribute and text vars) of `str` / `int` / `bool`
 * `wrapper`  : wrapped list elements
 * `sequence` : `sequence` groups (the rolling interleave of `next_value`)
+* `fixed`    : fields with `init=False` (fixed values)
+* `anyAttrs` : an `Attributes` map (`##any`, `##other`, …)
 
 Core Lean only (the driver evaluates the predicates on exported real universes and instances).
 -/
@@ -22,15 +24,28 @@ structure Feat where
   tokens : Bool := false
   wrapper : Bool := false
   sequence : Bool := false
+  fixed : Bool := false
+  anyAttrs : Bool := false
 deriving DecidableEq, Repr
 
 /-! ### metadata -/
 
 /-- flags every var of the fragments has -/
 def varBase (ft : Feat) (v : XmlVar) : Bool :=
-  v.init && !v.mixed && !v.anyType && !v.isClazzUnion && !v.qname.isEmpty &&
+  (v.init || ft.fixed) && !v.mixed && !v.anyType && !v.isClazzUnion && !v.qname.isEmpty &&
   (v.sequence.isNone || ft.sequence) &&
   (!v.nillable || ft.nillable) && (!v.tokens || ft.tokens) && (v.wrapperQName.isNone || ft.wrapper)
+
+/-- a var with `init=False`: a scalar primitive with a fixed value -/
+def fixedOK (v : XmlVar) : Bool :=
+  !v.tokens && !v.listElement && !v.nillable && v.clazz.isNone && v.sequence.isNone &&
+  (match v.default with | .val _ => true | _ => false)
+
+/-- the dataclass field of a var: same `init`, and its default is the var's default -/
+def fieldAgreesN (ci : ClassInfo) (v : XmlVar) : Bool :=
+  match ci.fields.find? (·.name = v.name) with
+  | some f => (f.init == v.init) && defaultAgrees v.default f.default
+  | none => false
 
 /-- the one primitive type of a var -/
 def primTypeOf (v : XmlVar) : Option PT :=
@@ -46,7 +61,7 @@ def attrVarOK (ft : Feat) (m : XmlMeta) (ci : ClassInfo) (v : XmlVar) : Bool :=
    | some t =>
      if v.tokens then decide (v.default = .listFactory) else !v.listElement && scalarDefault v.default t
    | none => false) &&
-  fieldAgrees ci v
+  (v.init || fixedOK v) && fieldAgreesN ci v
 
 def textVarOK (ft : Feat) (ci : ClassInfo) (v : XmlVar) : Bool :=
   v.isText && varBase ft v && !v.nillable && v.wrapperQName.isNone && v.sequence.isNone &&
@@ -55,7 +70,7 @@ def textVarOK (ft : Feat) (ci : ClassInfo) (v : XmlVar) : Bool :=
      if v.tokens then !v.listElement && decide (v.default = .listFactory)
      else !v.listElement && scalarDefault v.default t
    | none => false) &&
-  fieldAgrees ci v
+  (v.init || fixedOK v) && fieldAgreesN ci v
 
 def elemVarOK (ft : Feat) (Γ : Ctx) (m : XmlMeta) (ci : ClassInfo) (v : XmlVar) : Bool :=
   v.isElement && varBase ft v && decide (1 ≤ v.index) &&
@@ -81,7 +96,14 @@ def elemVarOK (ft : Feat) (Γ : Ctx) (m : XmlMeta) (ci : ClassInfo) (v : XmlVar)
      (match metaOf Γ c (targetUri m.qname) with
       | some m' => nsAgree Γ m' v.qname
       | none => false)) &&
-  fieldAgrees ci v
+  (v.init || fixedOK v) && fieldAgreesN ci v
+
+/-- an `Attributes` map: a `dict` field with default `{}` -/
+def mapVarOK (ci : ClassInfo) (v : XmlVar) : Bool :=
+  v.isAttributes && v.init &&
+  (match ci.fields.find? (·.name = v.name) with
+   | some f => f.init && (match f.default with | some (.attrs []) => true | _ => false)
+   | none => false)
 
 /-- the number of vars `next_value` rolls together when it meets a var of sequence group `sq` at
 the head of `rest`: up to the last var of that group (vars in between are rolled along) -/
@@ -104,11 +126,14 @@ def seqOK : Nat → List XmlVar → Bool
 /-- one exported `XmlMeta` of class `ci` -/
 def metaOK (ft : Feat) (Γ : Ctx) (ci : ClassInfo) (m : XmlMeta) : Bool :=
   decide (m.clazz = ci.id) && (!m.nillable || ft.nillable) && !m.qname.isEmpty &&
-  m.wildcards.isEmpty && m.choices.isEmpty && m.anyAttributes.isEmpty &&
+  m.wildcards.isEmpty && m.choices.isEmpty &&
+  -- at most one `Attributes` map
+  (m.anyAttributes.isEmpty ||
+    (ft.anyAttrs && (match m.anyAttributes with | [av] => mapVarOK ci av | _ => false))) &&
   decide (m.findAttribute xsiNil = none) &&
   -- every announced wrapper is the wrapper of an element var
   m.wrappers.all (fun ww => m.elementVars.any (fun v => decide (v.wrapperQName = some ww.1))) &&
-  m.attributeVars.all (attrVarOK ft m ci) &&
+  m.attributeVars.all (fun v => attrVarOK ft m ci v || (decide (m.anyAttributes = [v]) && mapVarOK ci v)) &&
   decide ((m.attributeVars.map (·.qname)).Nodup) &&
   (match m.text with
    | none => m.elementVars.all (elemVarOK ft Γ m ci)
@@ -136,19 +161,45 @@ def tokensOK (e : BEnv) (t : PT) : Val → Bool
   | .list xs => xs.all (fun y => match y with | .prim p => primHasType p t && tokenOK e p | _ => false)
   | _ => false
 
-def attrValOK (e : BEnv) (Γ : Ctx) (ci : ClassInfo) (var : XmlVar) (x : Val) : Bool :=
-  match primTypeOf var with
-  | some t =>
-    if var.tokens then tokensOK e t x
-    else
-      (match x with
-       | .none => fdNone ci var.name
-       | .prim p => primHasType p t && attrStrOK Γ p
-       | _ => false)
-  | none => false
+/-- the value of a field with `init=False` is its default -/
+def fixedVal (var : XmlVar) (x : Val) : Bool :=
+  match x, var.default with
+  | .prim p, .val d => p = d
+  | _, _ => false
+
+/-- a value of an `Attributes` map that `parse_any_attribute` leaves alone under every prefix map:
+no `prefix:rest` shape (except `prefix://…`) -/
+def anyAttrValOK (v : Str) : Bool :=
+  match textSplit v ':' with
+  | (some p, suffix) => p.isEmpty || startsWith suffix ['/', '/']
+  | (none, _) => true
+
+/-- the entries of an `Attributes` map: distinct keys that the var admits and that are neither
+declared attributes nor `xsi:` attributes; plain values -/
+def mapValOK (Γ : Ctx) (m : XmlMeta) (var : XmlVar) : Val → Bool
+  | .attrs kv =>
+    decide ((kv.map (·.1)).Nodup) &&
+    kv.all (fun kw =>
+      matchNamespace var.namespaces kw.1 && decide (m.findAttribute kw.1 = none) &&
+      decide (targetUri kw.1 ≠ some xsiNs) && anyAttrValOK kw.2 && attrStrOK Γ (.str kw.2))
+  | _ => false
+
+def attrValOK (e : BEnv) (Γ : Ctx) (m : XmlMeta) (ci : ClassInfo) (var : XmlVar) (x : Val) : Bool :=
+  if var.isAttributes then mapValOK Γ m var x else
+  (var.init || fixedVal var x) &&
+  (match primTypeOf var with
+   | some t =>
+     if var.tokens then tokensOK e t x
+     else
+       (match x with
+        | .none => fdNone ci var.name
+        | .prim p => primHasType p t && attrStrOK Γ p
+        | _ => false)
+   | none => false)
 
 /-- `nil` = the element of the object is written with `xsi:nil="true"` when it has no content -/
 def textValOK (e : BEnv) (ci : ClassInfo) (var : XmlVar) (nil : Bool) (x : Val) : Bool :=
+  (var.init || fixedVal var x) &&
   match primTypeOf var with
   | some t =>
     -- an empty token list in an `xsi:nil` element comes back as `None`
@@ -178,6 +229,7 @@ def clsItemOK (var : XmlVar) (clsNillable : Bool) (rec : Bool → Val → Bool) 
 
 def elemValOK (e : BEnv) (Γ : Ctx) (m : XmlMeta) (ci : ClassInfo) (var : XmlVar)
     (rec : ClassId → Bool → Val → Bool) (x : Val) : Bool :=
+  (var.init || fixedVal var x) &&
   match var.clazz with
   | none =>
     (match primTypeOf var with
@@ -225,6 +277,11 @@ def emitsChild (var : XmlVar) (x : Val) : Bool :=
   | .list xs => !xs.isEmpty || (var.tokens && var.nillable)
   | _ => true
 
+/-- the element must not be written as `xsi:nil`: under a nillable var a class that is not nillable
+itself would come back as `None`, and an `Attributes` map would capture the `xsi:nil` attribute -/
+def needContent (nl : Bool) (m : XmlMeta) : Bool :=
+  (nl && !m.nillable) || ((nl || m.nillable) && !m.anyAttributes.isEmpty)
+
 /-- `v` is an instance of class `c` (metadata built under `pns`) inside the fragment; `nl` says
 that the element is written for a nillable var (then a class that is not nillable itself needs
 some content, otherwise the element is `xsi:nil` and comes back as `None`).
@@ -240,15 +297,15 @@ def valObjN (e : BEnv) (Γ : Ctx) : Nat → Option Str → ClassId → Bool → 
        | none => false
        | some m =>
          decide (fields.map (·.1) = ci.fields.map (·.name)) &&
-         m.attributeVars.all (fun var => attrValOK e Γ ci var (look fields var.name)) &&
+         m.attributeVars.all (fun var => attrValOK e Γ m ci var (look fields var.name)) &&
          (match m.text with
           | some tv =>
             textValOK e ci tv (nl || m.nillable) (look fields tv.name) &&
-            (!nl || m.nillable || textHasData (look fields tv.name))
+            (!needContent nl m || textHasData (look fields tv.name))
           | none =>
             m.elementVars.all (fun var =>
               elemValOK e Γ m ci var (valObjN e Γ n (targetUri m.qname)) (look fields var.name)) &&
-            (!nl || m.nillable ||
+            (!needContent nl m ||
               m.elementVars.any (fun var => emitsChild var (look fields var.name)))))
   | _ + 1, _, _, _, _ => false
 
